@@ -1,6 +1,6 @@
 SPECIFICATION Spec
 CONSTANTS
-  Kinds = {"deep", "deep2", "flat", "miss"}
+  Kinds = {"deep", "deep2", "flat", "miss", "smiss"}
   PoolCap = 2
   MaxSteps = 5
   DEV_NoPathReset = FALSE
